@@ -67,6 +67,41 @@ def finalCheck (P : Program) (F : Flags) (calls : List Nat) (c : Config) (result
       | none => some "top-sequence"
       | some r => if r = result then none else some "run-result"
 
+/-! ### per-activation monitors as state machines -/
+
+structure ActMon (σ : Type) where
+  init : σ
+  step : σ → Ev → Option σ        -- `none` = the property is violated at this event
+
+def ActMon.run {σ} (m : ActMon σ) : σ → List Ev → Option σ
+  | s, [] => some s
+  | s, e :: es => match m.step s e with | some s' => m.run s' es | none => none
+
+theorem ActMon.run_append {σ} (m : ActMon σ) (s : σ) (l1 l2 : List Ev) :
+    m.run s (l1 ++ l2) = (m.run s l1).bind (fun s' => m.run s' l2) := by
+  induction l1 generalizing s with
+  | nil => rfl
+  | cons e es ih =>
+    simp only [List.cons_append, ActMon.run]
+    cases m.step s e with
+    | none => rfl
+    | some s' => exact ih s'
+
+/-- may deferred entry `i` start after the deferred entry `last` (if any)? -/
+def okAfter (last : Option Nat) (i : Nat) : Bool :=
+  match last with
+  | some j => decide (i < j)
+  | none => true
+
+/-- C14: the deferred entries of one activation start in strictly decreasing index order
+(hence each at most once, and in reverse order of registration) -/
+def deferOrderMon : ActMon (Option Nat) where
+  init := none
+  step last ev :=
+    match ev with
+    | .cmdStart i _ true | .callRelease i true => if okAfter last i then some (some i) else none
+    | _ => some last
+
 /-! ### raw-trace helpers -/
 
 /-- position-tagged events of one activation -/
@@ -81,15 +116,6 @@ def enterOf (a : Nat) : List Label → Option (Kind × Nat)
 def actIds : List Label → List Nat
   | [] => []
   | l :: ls => match l.ev with | .enter _ _ => l.act :: actIds ls | _ => actIds ls
-
-/-- C14 on the raw events of one activation: the deferred entries that run (a deferred
-`cmdStart`, or the `callRelease` of a deferred call — recognisable because it comes after
-the body) do so in strictly decreasing index order. `go` tracks the last deferred index. -/
-def deferOrderOk : List Ev → Option Nat → Bool
-  | [], _ => true
-  | .cmdStart i _ true :: r, last => (match last with | some j => i < j | none => true) && deferOrderOk r (some i)
-  | .callRelease i true :: r, last => (match last with | some j => i < j | none => true) && deferOrderOk r (some i)
-  | _ :: r, last => deferOrderOk r last
 
 /-- C02 on the raw events of one activation: non-deferred command starts have strictly
 increasing indices and each start is closed (`cmdEnd` / `callReacq`) before the next. -/
@@ -191,7 +217,7 @@ def monitorVerdicts (P : Program) (F : Flags) (_calls : List Nat) (tr : List Lab
   let c06 := regOnce tr []
   let c07 := match F.cap with | some n => boundOk n tr 0 | none => true
   let c13 := guardedNoCmd P F tr
-  let c14 := ids.all (fun a => deferOrderOk (evsOf a tr) none)
+  let c14 := ids.all (fun a => (deferOrderMon.run deferOrderMon.init (evsOf a tr)).isSome)
   s!"C01={b c01} C02={b c02} C03={b c03} C06={b c06} C07={b c07} C13={b c13} C14={b c14}"
 
 end TaskModel.Sched
